@@ -41,6 +41,14 @@ def plan(plan, tier, seed):
         plan.verus.append(VerusUnit("c16_match", unit, {"match_arms": n4}, ["canary_match"]))
     except AnchorLost as e:
         plan.anchor_errors.append((n4, str(e)))
+    n6 = "C16.verus.execute_user_function.tail_call_loop_is_the_recurrence"
+    plan.ob(n6, "verus", "proved", functions=["execute_user_function (the tail-call loop of the match-arm branch)"],
+            what="for every behaviour of the arms: if the call returns a value, that value is what the recurrence defines -- there is a chain of argument lists starting with the call's arguments, each bound in a fresh scope and each being the tail call the arms made on the previous one, whose last element's arms return that value (any depth; no stack growth); every round closes the scope it opened.  Partial correctness: termination is not claimed")
+    try:
+        plan.verus.append(VerusUnit("c16_tail", vC16.tail_unit(text), {"tail_call_loop": n6}, ["canary_tail"]))
+    except AnchorLost as e:
+        plan.anchor_errors.append((n6, str(e)))
+    plan.dropped.append(vC16.tail_loop_fn.__doc__.strip())
     n5 = "C16.verus.try_broadcast_user_function.elementwise_over_a_matrix"
     plan.ob(n5, "verus", "proved", functions=["try_broadcast_user_function (whole body)"],
             what="a function with one input and one output of the same scalar kind, called with one matrix argument, returns the matrix of the source's shape assembled from the function applied to each element -- each element once, in element order; an error in any application is an error; in every other situation the broadcast does not apply (and applies the function to nothing)")
@@ -63,5 +71,5 @@ def plan(plan, tier, seed):
         "`#[cfg(..)]` attributes inside the match_expression guard are evaluated for the default feature set read from src/interpreter/Cargo.toml (closure of `default`); the pattern matcher reads and extends the environment it is given, 'matches' in the property = matches in a fresh environment",
     ]
     plan.assumptions += ["match_expression arm loop: pattern_matches_value_with_semantics, guard_expression_true, expression, match_validate_arm_kinds are arbitrary functions (contracts/C16/matchmodel.rs); `detached_source` / `base_env` (computed above the loop) are parameters; nothing is claimed when the option/matrix coalescing case applies to the selected arm, nor when the guard of an earlier NON-matching arm fails to evaluate (the code evaluates such guards and reports their failure; the property is silent)"]
-    plan.undecided_clauses += ["C16: of match *expressions*: the statements above the arm loop (source evaluation, the Empty / wildcard pre-check), the option/matrix coalescing case, match_validate_arm_kinds and infer_missing_enum_match_patterns themselves; what the recurrence computes (tail-call loop of execute_user_function: no termination claim), the exhaustiveness pre-check of execute_function_match_arms, pattern_matches_value itself"]
+    plan.undecided_clauses += ["C16: of match *expressions*: the statements above the arm loop (source evaluation, the Empty / wildcard pre-check), the option/matrix coalescing case, match_validate_arm_kinds and infer_missing_enum_match_patterns themselves; termination of a recursion, non-tail recursion (through expression evaluation), the exhaustiveness pre-check of execute_function_match_arms, pattern_matches_value itself"]
     plan.level = "proof"
